@@ -2,6 +2,7 @@ package sim
 
 import (
 	"fmt"
+	"os"
 	"strings"
 	"sync"
 
@@ -30,7 +31,12 @@ type simLogger struct {
 	scope string
 }
 
+var traceLogs = os.Getenv("VERIF_TRACE") != ""
+
 func (l *simLogger) at(level, format string, args []any) {
+	if traceLogs {
+		fmt.Fprintf(os.Stderr, "TRACE %d %s %s\n", l.f.K.Now(), level, safeSprintf(format, args))
+	}
 	if level == "W" || level == "E" {
 		l.f.mu.Lock()
 		l.f.ErrKeys[level+":"+format]++
